@@ -146,6 +146,9 @@ impl DBFile {
             .bypass_cache(false)
             .open(&path)?;
 
+        #[cfg(feature = "verif")]
+        crate::verif::iotap::record_create(path.as_ref());
+
         Ok(Self {
             f,
             p: path.as_ref().to_path_buf(),
@@ -167,6 +170,8 @@ impl DBFile {
 
     /// Cuts (or extends) the file to `len` bytes.
     pub(crate) fn set_len(&mut self, len: u64) -> io::Result<()> {
+        #[cfg(feature = "verif")]
+        crate::verif::iotap::record_set_len(&self.p, len);
         self.f.set_len(len)
     }
 }
